@@ -10,9 +10,13 @@
 //! the mutant is byte-identical to F outside what the SIGNED hard binding declares excluded, resolved by the harness's
 //! own resolvers: DataHash ranges / the C2PA box / BMFF exclusion xpaths). A panic is neither Err nor Invalid.
 //!
-//! Mutants caught (tools/mutant_run.sh B ... C01 quick):
-//!   /verif/mutants/C01-exclusion-off-by-one.diff
-//!   /verif/mutants/C01-inclusion-off-by-one.diff
+//! Mutants caught (quick tier; the unchanged tree already reports the box-hash findings, so "caught" = NEW violation keys):
+//!   /verif/mutants/C01-exclusion-off-by-one.diff  (hash_utils: exclusion end without the -1, at signing and validation):
+//!       321 -> 353 violations; new keys `undetected datahash {flac,mp3} at=content edit=flip`,
+//!       `undetected datahash {wav,avi,tiff} at=... edit=append*`, `undetected datahash webp at=C2PA ...`
+//!   /verif/mutants/C01-inclusion-off-by-one.diff  (hash_utils: inclusion end one byte short): 321 -> 424 violations;
+//!       new keys `undetected boxhash gif at=LSD edit=flip`, `undetected boxhash jxl at=jxlc edit=flip`,
+//!       `undetected bmffhash+merkle mp4 at=mdat edit=flip`
 
 use std::{
     collections::hash_map::DefaultHasher,
@@ -347,10 +351,11 @@ pub fn judge(run: &Run, seed: &Seed, e: &Edit, verbose: bool) -> String {
     let obs = seed.observe(&m);
     run.eval();
     if verbose && std::env::var("VERIF_DEBUG").is_ok() {
-        let _ = std::fs::write("/tmp/out-B/seed.bin", &seed.signed);
-        let _ = std::fs::write("/tmp/out-B/mutant.bin", &m);
+        let _ = std::fs::write(kit::ev::out_root().join("debug-seed.bin"), &seed.signed);
+        let _ = std::fs::write(kit::ev::out_root().join("debug-mutant.bin"), &m);
     }
-    let case = json!({"seed": seed.id, "edit": e.to_json()});
+    // the exact seed bytes are recorded: labels, hashes and (for compressed stores) the byte layout differ between signings
+    let case = json!({"seed": seed.id, "edit": e.to_json(), "signed_hex": kit::ev::hex(&seed.signed), "detached_hex": seed.detached.as_ref().map(|d| kit::ev::hex(d))});
     let bname = seed.binding.name();
     let class = obs.class();
     if verbose {
@@ -387,8 +392,8 @@ pub fn judge(run: &Run, seed: &Seed, e: &Edit, verbose: bool) -> String {
                 return format!("VIOLATION-undetected");
             } else if *canon != seed.canon {
                 if verbose && std::env::var("VERIF_DEBUG").is_ok() {
-                    let _ = std::fs::write("/tmp/out-B/canon-seed.json", &seed.canon);
-                    let _ = std::fs::write("/tmp/out-B/canon-mutant.json", canon);
+                    let _ = std::fs::write(kit::ev::out_root().join("debug-canon-seed.json"), &seed.canon);
+                    let _ = std::fs::write(kit::ev::out_root().join("debug-canon-mutant.json"), canon);
                 }
                 run.violation(
                     format!("report-changed {bname} {} at={} edit={}", seed.fmt, where_of(seed, e, &m), e.kind),
@@ -415,6 +420,19 @@ pub fn run(run: &Run, replay: Option<&Value>) {
     if let Some(c) = replay {
         let id = c["seed"].as_str().unwrap_or("");
         let seed = seeds.iter().find(|s| s.id == id).unwrap_or_else(|| kit::ev::machinery(format!("replay: unknown seed {id}")));
+        // re-create the seed from the recorded bytes when the case carries them (exact replay)
+        let recorded;
+        let seed = match c["signed_hex"].as_str() {
+            Some(h) => {
+                let a = assets::by_name(seed.fmt);
+                recorded = finish_seed(seed.id.clone(), &a, kit::ev::unhex(h), c["detached_hex"].as_str().map(kit::ev::unhex), seed.id.ends_with("/update"));
+                &recorded
+            }
+            None => seed,
+        };
+        if std::env::var("VERIF_DEBUG").is_ok() {
+            std::panic::set_hook(Box::new(|i| eprintln!("panic: {i}\n{}", std::backtrace::Backtrace::force_capture())));
+        }
         let sym = c["edit"].as_str().unwrap_or("");
         let e = edits(seed, false)
             .into_iter()
